@@ -4,6 +4,7 @@ package main
 // branch of a real app, against the Lean model `Pnft.handle` / `Pnft.query*`, with raw store dumps.
 
 import (
+	"encoding/json"
 	"fmt"
 	"math/rand"
 	"strings"
@@ -246,6 +247,45 @@ func pnftDump(c *Chain, ctx sdk.Context) string {
 		return "~"
 	}
 	return strings.Join(parts, ";")
+}
+
+// monC12GenesisNul evaluates C12's "distinct (denom, token) pairs never alias" on a chain started from a hand-written
+// genesis whose identifiers contain the x/nft key delimiter 0x00: the module's genesis validation has to refuse it.
+func monC12GenesisNul(s *Stream, c0 *Chain) {
+	s.Emit("mon.c12.genesis-nul", guard(func() string {
+		alice := sdk.AccAddress([]byte("pnft-genesis-alice--")).String()
+		ts := time.Unix(1, 0).UTC()
+		gs := pnfttypes.GenesisState{
+			Denoms: []*pnfttypes.Denom{{Id: "a", Name: "n", Symbol: "s", Owner: alice}, {Id: "a\x00b", Name: "n2", Symbol: "s2", Owner: alice}},
+			Pnfts:  []*pnfttypes.Pnft{{DenomId: "a", Id: "b\x00c", Name: "tok", Creator: alice, Owner: alice, CreatedAt: ts}},
+		}
+		if err := gs.ValidateBasic(); err != nil {
+			return "pass #rejected-by-genesis-validation"
+		}
+		bz, err := c0.App.AppCodec().MarshalJSON(&gs)
+		if err != nil {
+			return "pass #not-encodable"
+		}
+		c2, err := NewChain(memDB(), tmpHome(), nil, 0, map[string]json.RawMessage{pnfttypes.ModuleName: bz})
+		if err != nil {
+			return "pass #rejected-by-init-genesis"
+		}
+		c2.Begin(c2.Time)
+		g := sdk.WrapSDKContext(c2.DeliverCtx())
+		r, err := c2.App.PnftKeeper.PNFT(g, &pnfttypes.QueryPNFTRequest{DenomId: "a\x00b", Id: "c"})
+		if err == nil && r.Pnft != nil && r.Pnft.DenomId != "a\x00b" {
+			return "fail #pair-(a\\0b,c)-answers-with-the-token-of-pair-(a,b\\0c)"
+		}
+		l, err := c2.App.PnftKeeper.PNFTs(g, &pnfttypes.QueryPNFTsRequest{DenomId: "a\x00b"})
+		if err == nil {
+			for _, t := range l.Pnfts {
+				if t.DenomId != "a\x00b" {
+					return "fail #listing-of-a-denom-returns-a-token-of-another-denom"
+				}
+			}
+		}
+		return "pass"
+	}))
 }
 
 // monC12 evaluates parts of C12 directly on the implementation.
@@ -535,6 +575,7 @@ func init() {
 			denoms: []string{"a", "ab", "a\x00b", "d1", "a/b"},
 			ids:    []string{"1", "2", "b\x00c", "c", "x"},
 		}
+		monC12GenesisNul(s, e.c)
 		for h := 0; h < n; h++ {
 			pnftHistory(e, rng, p, 25+rng.Intn(40))
 		}
